@@ -653,6 +653,17 @@ bool ObjectFile::writeAttributes(File &objectFile)
 		}
 	}
 
+	// The attributes are still in the stream buffer; only report success
+	// when they have actually been handed to the file system
+	if (!objectFile.flush())
+	{
+		DEBUG_MSG("Failed to flush object %s", path.c_str());
+
+		objectFile.unlock();
+
+		return false;
+	}
+
 	objectFile.unlock();
 
 	return true;
